@@ -93,13 +93,28 @@ def make_neutral(root: Path, kind: str) -> None:
             tree = _InsertPass().visit(tree)
             ast.fix_missing_locations(tree)
             new = ast.unparse(tree)
+        elif kind == "rename-locals":
+            from . import alpha
+
+            for fn in [n for n in ast.walk(tree) if isinstance(n, (ast.FunctionDef, ast.AsyncFunctionDef))]:
+                # only outermost functions/methods (nested defs are renamed with their parent)
+                pass
+            def rename_in(body_owner):
+                for st in body_owner.body:
+                    if isinstance(st, (ast.FunctionDef, ast.AsyncFunctionDef)):
+                        names = alpha._locals_of(st)
+                        alpha._Renamer({n: n + "_rn" for n in names}).visit(st)
+                    elif isinstance(st, ast.ClassDef):
+                        rename_in(st)
+            rename_in(tree)
+            new = ast.unparse(tree)
         else:
             raise ValueError(kind)
         # keep a trailing newline and shift everything down (line numbers differ)
         p.write_text("# neutral variant: " + kind + "\n\n\n" + new + "\n")
 
 
-NEUTRAL_KINDS = ("unparse", "insert-pass")
+NEUTRAL_KINDS = ("unparse", "insert-pass", "rename-locals")
 
 
 # ----------------------------------------------------------------------------
